@@ -89,6 +89,8 @@ def api_monitor(case, rec):
         else:
             first_of[g] = sub
         njobs_prev = r["njobs"]
+    if rec.get("hang"):
+        fails.append(("experiment-does-not-finish", "the experiment did not finish within the time limit (submission history with duplicates, instant launcher)"))
     for ident, n in rec.get("launched", {}).items():
         limit = 2 if ident in rec.get("failing", []) else 1
         if n > limit:
